@@ -91,12 +91,14 @@ type ReqRec struct {
 	Err       error
 	Responses int
 	Lost      bool // in flight at a crash
+	Front     *frontCall
+	FrontOnly bool // answered by the front end without reaching the kernel
 	Txs       []*TxRec
 	Boot      int
 }
 
 func (r *ReqRec) Status() int {
-	if r.Responses == 0 {
+	if r.Responses == 0 || r.FrontOnly || (r.Res == nil && r.Err == nil) {
 		return 0
 	}
 	if r.Err != nil {
@@ -256,6 +258,8 @@ type Sim struct {
 	curSender  []*aioCQE
 	curBatch   []*TxRec
 	crashNow   bool
+	fronts     *fronts
+	curCall    *frontCall
 	fair       bool // convergence phase: workers run concurrently with the kernel, no faults
 
 	// observation
@@ -451,6 +455,7 @@ func (s *Sim) bootServer() error {
 	wire(sys, s.bgEnabled)
 	s.sys = sys
 	s.alive = true
+	s.fronts = nil
 	s.shutdownRequested = false
 	s.stopped = false
 
